@@ -30,11 +30,14 @@ def build_layout(variant, frags, T, scratch, tag, salt, rnd, opus_letter="B"):
         ents.append(fe)
     if variant == "DFS":
         ns = 400 if T <= 400 else (800 if T <= 800 else 1440)
-        d = discs.build("DFS", ents[0], scratch, tag, nsectors=ns, total=T, salt=salt, ext="ssd" if ns <= 800 else "sdd", title=b"SPACE")
+        # (every third disc has a title whose first byte has its top bit set: only HDFS gives that bit a meaning)
+        d = discs.build("DFS", ents[0], scratch, tag, nsectors=ns, total=T, salt=salt, ext="ssd" if ns <= 800 else "sdd",
+                        title=(b"\xd3PACE" if salt % 3 == 0 else b"SPACE"))
         lay = dict(frags=frags, T=T, cs=2, base=2, maxfiles=31)
     elif variant == "WDFS":
         ns = 400 if T <= 400 else 800
-        d = discs.build("WDFS", ents[0] + ents[1], scratch, tag, nsectors=ns, total=T, salt=salt, split=len(ents[0]), title=b"SPACE")
+        d = discs.build("WDFS", ents[0] + ents[1], scratch, tag, nsectors=ns, total=T, salt=salt, split=len(ents[0]),
+                        title=(b"\xd3PACE" if salt % 3 == 0 else b"SPACE"))
         lay = dict(frags=frags, T=T, cs=4, base=4, maxfiles=62)
     else:
         d = discs.build("OPUS", ents[0], scratch, tag, salt=salt, opus_letter=opus_letter, title=b"SPACE")
@@ -53,7 +56,8 @@ def observe(dfs, d, lay, scratch, eid):
     base = [dfs, "--file", d.path]
     T = lay["T"]
     # free
-    o = common.run(base + ["free", d.drive])
+    # (every fourth run under a locale name that is not installed: the figures and their thousands separators are the program's own)
+    o = common.run(base + ["free", d.drive], env=({"LANG": "xx_YY.UTF-8", "LC_NUMERIC": "de_DE.UTF-8"} if eid % 4 == 0 else None))
     obs = dict(fused=-1, ffree=-1, sused=-1, sfree=-1, bused=-1, bfree=-1)
     for ln in o.out.decode("latin1").split("\n"):
         m = FREE_RE.match(ln)
